@@ -86,7 +86,7 @@ impl Prop for C03 {
                     trained: Some((lines.clone(), requested)),
                 })
             });
-        let random = table_strategy(32)
+        let random = prop_oneof![12 => table_strategy(32), 1 => table_strategy(128)]
             .prop_flat_map(|(letters, table)| {
                 let n = table.entries.len();
                 (
